@@ -154,6 +154,7 @@ func VerifH_C06_pair() {
 // VerifH_C06_pairclass: GPOS 2.2 (class pairs) with symbolic classes of the alphabet glyphs, with and without
 // second records, with ignored glyphs inside the pair.
 func VerifH_C06_pairclass() {
+	seqLen := 2 + verifChoose("len", verifParam("maxlen", 2)) // first decision: one process per length
 	meta := verifFlags()
 	meta.LookupType = 2
 	gd := verifGdef()
@@ -181,7 +182,7 @@ func VerifH_C06_pairclass() {
 		}
 	}
 	ll := LookupList{{Meta: meta, Subtables: []Subtable{st}}}
-	seq := verifSeq(2+verifChoose("len", verifParam("maxlen", 2)), 4)
+	seq := verifSeq(seqLen, 4)
 	checkShape(ll, gd, []LookupIndex{0}, seq, "class pair")
 	_ = cls
 }
@@ -298,4 +299,31 @@ func VerifH_C06_markbase() {
 	got := NewContext(ll, gd, []LookupIndex{0}).Apply(refCopy(seq))
 	verifReach("applied")
 	verifAssert(refUndefined || sameSeq(got, want), "mark-to-base: result equals the reference implementation of the OpenType rules")
+}
+
+// VerifH_C06_pairresume: where scanning resumes after a pair adjustment (GPOS 2.1 and 2.2): behind the second
+// glyph when it received a value record, at the second glyph otherwise, with ignored glyphs between the two.
+// Sequences of four glyphs over {1,2,3,4}; glyph 4 is a mark, marks are ignored or not.
+func VerifH_C06_pairresume() {
+	meta := &LookupMetaInfo{LookupType: 2}
+	if verifBool("ignoremarks") {
+		meta.LookupFlags = IgnoreMarks
+	}
+	gd := &gdef.Table{GlyphClass: classdef.Table{1: 1, 2: 1, 3: 1, 4: 3}}
+	first := &GposValueRecord{XAdvance: funit.Int16(verifI16("first"))}
+	var second *GposValueRecord
+	if verifBool("second") {
+		second = &GposValueRecord{XPlacement: funit.Int16(verifI16("second"))}
+	}
+	var st Subtable
+	if verifBool("classes") {
+		st = &Gpos2_2{Cov: coverage.Set{1: true, 2: true}, Class1: classdef.Table{}, Class2: classdef.Table{2: 1, 3: 1},
+			Adjust: [][]*PairAdjust{{{}, {First: first, Second: second}}}}
+	} else {
+		st = Gpos2_1{glyph.Pair{Left: 1, Right: 2}: &PairAdjust{First: first, Second: second}, glyph.Pair{Left: 2, Right: 3}: &PairAdjust{First: first, Second: second},
+			glyph.Pair{Left: 2, Right: 2}: &PairAdjust{First: first, Second: second}}
+	}
+	ll := LookupList{{Meta: meta, Subtables: []Subtable{st}}}
+	seq := verifSeq(4, 4)
+	checkShape(ll, gd, []LookupIndex{0}, seq, "pair resume")
 }
